@@ -5,7 +5,7 @@
 From Coq Require Import List NArith Arith Bool Lia.
 From SNT Require Import Base.Outcome Automata.DfaData Automata.DfaDataProofs Automata.Tokenizer
   Automata.TokenizerRun Automata.TokenizerMunch Automata.TokenizerTheorems Automata.Reach
-  Automata.ReachProofs Decoder.Payload Decoder.PayloadProofs Decoder.TermSizeProofs Decoder.Events.
+  Automata.ReachProofs Decoder.Payload Decoder.PayloadProofs Decoder.TermSizeProofs Decoder.TermcapProofs Decoder.Events.
 Import ListNotations.
 Local Open Scope N_scope.
 
@@ -29,39 +29,6 @@ Definition need_len (id m : N) : bool :=
   | _ => false
   end.
 
-Lemma hex_decode_ok_cases x : hex_decode_ok x = Ok tt \/ hex_decode_ok x = Panic site_hex_pair.
-Proof. unfold hex_decode_ok. destruct (hex_panics (length x) x); [right|left]; reflexivity. Qed.
-
-Lemma hex_all_ok l :
-  Payload.all_ok (map hex_decode_ok l) = Ok tt \/ Payload.all_ok (map hex_decode_ok l) = Panic site_hex_pair.
-Proof.
-  induction l as [|x r IH]; [left; reflexivity|].
-  cbn [map Payload.all_ok]. destruct (hex_decode_ok_cases x) as [-> | ->]; cbn [bind]; [exact IH|right; reflexivity].
-Qed.
-
-Lemma hex_all_ok2 (l : list (list N * list N)) :
-  let xs := flat_map (fun kv => [hex_decode_ok (fst kv); hex_decode_ok (snd kv)]) l in
-  Payload.all_ok xs = Ok tt \/ Payload.all_ok xs = Panic site_hex_pair.
-Proof.
-  induction l as [|[k v] r IH]; [left; reflexivity|].
-  cbn [flat_map app Payload.all_ok fst snd].
-  destruct (hex_decode_ok_cases k) as [-> | ->]; cbn [bind]; [|right; reflexivity].
-  destruct (hex_decode_ok_cases v) as [-> | ->]; cbn [bind]; [exact IH|right; reflexivity].
-Qed.
-
-(* the XTGETTCAP decoder: the only panic it can raise is hex_decode's pair[1] *)
-Lemma dec_termcap_total data :
-  (7 <= length data)%nat ->
-  (exists r, dec_termcap data = Ok r) \/ dec_termcap data = Panic site_hex_pair.
-Proof.
-  intros H. unfold dec_termcap.
-  destruct (index_ok data 2) as [code ->]; [lia|]. cbn [bind].
-  destruct (mid_ok data 5 2) as [body ->]; [lia|]. cbn [bind].
-  destruct (code =? 49).
-  - destruct (hex_all_ok2 (key_value_decode 59 body)) as [-> | ->]; cbn [bind]; [left; eexists; reflexivity|right; reflexivity].
-  - destruct (hex_all_ok (split_on 59 body)) as [-> | ->]; cbn [bind]; [left; eexists; reflexivity|right; reflexivity].
-Qed.
-
 Lemma need_len_nat (k : N) (data : list N) :
   k <= 12 -> k <=? N.min (N.of_nat (length data)) len_cap = true -> (N.to_nat k <= length data)%nat.
 Proof. intros Hk H. apply N.leb_le in H. unfold len_cap in H. lia. Qed.
@@ -74,19 +41,18 @@ Ltac len_from H :=
 Theorem payload_by_id_total ms ss id data :
   need_len id (N.min (N.of_nat (length data)) len_cap) = true ->
   (id = 11 -> ts_good (fold_left ts_step data ts_m0) = true) ->
-  (exists r, payload_by_id ms ss id data = Ok r)
-  \/ (id = 10 /\ payload_by_id ms ss id data = Panic site_hex_pair).
+  (id = 10 -> tc_good (fold_left tc_step data 0) = true) ->
+  exists r, payload_by_id ms ss id data = Ok r.
 Proof.
-  intros HL HT.
-  destruct id as [|p]; [left; eexists; reflexivity|].
+  intros HL HT HC.
+  destruct id as [|p]; [eexists; reflexivity|].
   do 4 (try (destruct p as [p|p|])); try (cbn in HL; discriminate);
     cbn [payload_by_id need_len] in *.
-  all: try (destruct (dec_termcap_total data) as [Hr|Hp];
-            [len_from HL; lia|left; exact Hr|right; split; [reflexivity|exact Hp]]).
-  all: try (left; apply dec_termsize_total; apply HT; reflexivity).
-  all: try (left; apply andb_prop in HL; destruct HL as [H1 H2];
+  all: try (apply dec_termcap_total_cert; [len_from HL; lia|apply HC; reflexivity]).
+  all: try (apply dec_termsize_total; apply HT; reflexivity).
+  all: try (apply andb_prop in HL; destruct HL as [H1 H2];
             apply N.leb_le in H1, H2; unfold len_cap in *; apply dec_utf8_total; lia).
-  all: left; len_from HL;
+  all: len_from HL;
     first [ apply dec_paste_total | apply dec_report_total | apply dec_kitty_image_total
           | apply dec_mouse_total | apply dec_devattrs_total | apply dec_kitty_keyboard_total
           | apply dec_decmode_total | apply dec_osc_total | apply dec_sgr_total | apply dec_cursor_total ];
@@ -97,7 +63,7 @@ Qed.
 Section Total.
   Variable d : dfa.
   Variables ids modes statuses : list N.
-  Variables VL VT : cert.
+  Variables VL VT VC : cert.
 
   Notation payload := (payload_at ids modes statuses).
   Notation item := (item_of payload d).
@@ -124,33 +90,45 @@ Section Total.
     | _ => true
     end.
 
+  Definition tc_good_q (q m : N) : bool :=
+    match d_tag d q with
+    | Some (false, i) =>
+        match nth_error ids (N.to_nat i) with
+        | Some 10 => tc_good m
+        | _ => true
+        end
+    | _ => true
+    end.
+
   Definition certs_ok : bool :=
     closed d len_step 0 VL && accept_ok d VL len_good
-    && closed d ts_step ts_m0 VT && accept_ok d VT ts_good_q.
+    && closed d ts_step ts_m0 VT && accept_ok d VT ts_good_q
+    && closed d tc_step 0 VC && accept_ok d VC tc_good_q.
 
   Hypothesis Hcerts : certs_ok = true.
 
-  (* no payload decoder panics on a string the automaton accepts; the one exception left open
-     is hex_decode's pair[1] inside the XTGETTCAP decoder *)
+  (* no payload decoder panics on a string the automaton accepts *)
   Theorem item_no_panic w q :
     run w = Some q -> d_accepting d q = true ->
-    forall site, item q w = Some (IPanic site) ->
-    site = site_hex_pair /\ exists i, d_tag d q = Some (false, i) /\ nth_error ids (N.to_nat i) = Some 10.
+    forall site, item q w <> Some (IPanic site).
   Proof.
     intros Hq Ha site.
-    unfold certs_ok in Hcerts. apply andb_prop in Hcerts. destruct Hcerts as [Hc HT2].
+    pose proof Hcerts as Hc. unfold certs_ok in Hc.
+    apply andb_prop in Hc. destruct Hc as [Hc HC2]. apply andb_prop in Hc. destruct Hc as [Hc HC1].
+    apply andb_prop in Hc. destruct Hc as [Hc HT2].
     apply andb_prop in Hc. destruct Hc as [Hc HT1]. apply andb_prop in Hc. destruct Hc as [HL1 HL2].
     pose proof (accept_sound d len_step 0 len_step_bound ltac:(reflexivity) VL len_good HL1 HL2 w q Hq Ha) as GL.
     pose proof (accept_sound d ts_step ts_m0 ts_step_bound ts_m0_bound VT ts_good_q HT1 HT2 w q Hq Ha) as GT.
-    rewrite len_mrun in GL. unfold Reach.mrun in GT.
-    unfold item_of, len_good, ts_good_q in *.
+    pose proof (accept_sound d tc_step 0 tc_step_bound ltac:(reflexivity) VC tc_good_q HC1 HC2 w q Hq Ha) as GC.
+    rewrite len_mrun in GL. unfold Reach.mrun in GT, GC.
+    unfold item_of, len_good, ts_good_q, tc_good_q in *.
     destruct (d_tag d q) as [[[|] i]|]; [discriminate| |discriminate].
     unfold payload_at.
     destruct (nth_error ids (N.to_nat i)) as [id|] eqn:En; [|discriminate].
-    destruct (payload_by_id_total modes statuses id w GL) as [[r ->]|[-> ->]].
+    destruct (payload_by_id_total modes statuses id w GL) as [r ->].
     - intros ->. exact GT.
+    - intros ->. exact GC.
     - destruct r; discriminate.
-    - intros H; inversion H; subst. split; [reflexivity|]. exists i. split; [reflexivity|exact En].
   Qed.
 
   (* ---------------------------------------------------------------- *)
